@@ -19,5 +19,9 @@ def run(prop, tier, seed, replay):
         common.ensure_impl_python()
         import query_check
         return query_check.run(prop, tier, seed, replay)
+    if prop == 'C15':
+        common.ensure_impl_python()
+        import policy_check
+        return policy_check.run(prop, tier, seed, replay)
     print('no check registered for', prop)
     return 2
